@@ -205,8 +205,11 @@ def check_errors(ctx):
     fi = db.fn('type_assignment.marker_cache_v2:'
                'create_marker_cache_from_specified_markers')
     _require_raise_under(ctx, fi, rule, 'marker-unknown-to-reference',
-                         lambda sl: 'reference_gene_names' in sl.params,
-                         'a marker that is not a reference gene')
+                         lambda sl: 'reference_gene_names' in sl.params
+                         and not sl.has_call('intersection'),
+                         'a marker that is not a reference gene (judged on '
+                         'the whole marker table, before it is restricted '
+                         'to the query)')
     # (b) no overlap with the query
     _require_raise_under(ctx, fi, rule, 'no-overlap-with-query',
                          lambda sl: 'query_gene_names' in sl.params
